@@ -41,8 +41,8 @@ func c12Jobs(tier string) []Job {
 	var jobs []Job
 	starts := []string{"FF", "TF", "FT", "TT"} // genesis flag values (burn, send)
 	for _, st := range starts {
-		for _, pre := range []string{"fresh", "after-traffic"} {
-			if tier == "quick" && pre == "after-traffic" && st != "FF" {
+		for _, pre := range []string{"fresh", "after-traffic", "pauser-rotated"} {
+			if tier == "quick" && pre != "fresh" && st != "FF" {
 				continue
 			}
 			st, pre := st, pre
@@ -67,6 +67,10 @@ func c12Run(r *Run, start, preamble string) {
 	var origSend, origDep, attSend, attDep []byte
 	signers := Keys[0:2]
 	everyone := []Account{Pauser, Owner, AttMgr, TokenCtl, UserA, Outsider}
+	pauser := Pauser // the current holder of the pauser role at this history point
+	if preamble == "pauser-rotated" {
+		pauser = UserA
+	}
 
 	flows := func() []c12Flow {
 		in1 := InboundPlain(DomEth, 100, []byte("hi"), nil)
@@ -132,6 +136,9 @@ func c12Run(r *Run, start, preamble string) {
 				return
 			}
 			attSend, attDep = Attest(origSend, signers), Attest(origDep, signers)
+			if preamble == "pauser-rotated" {
+				do(Act("updatePauser(A4) by A0", &cctptypes.MsgUpdatePauser{From: Owner.Str, NewPauser: UserA.Str}))
+			}
 			if preamble == "after-traffic" {
 				in := InboundBurn(DomEth, 5, big.NewInt(9), pad32(UserB.Addr), nil)
 				do(MkReceive(UserB.Str, in, Attest(in, signers), "burn(0,5,9)"))
@@ -148,7 +155,7 @@ func c12Run(r *Run, start, preamble string) {
 			}
 			for _, tx := range AdminTxs {
 				w.Load(unpaused)
-				holder := map[Role]string{RoleOwner: Owner.Str, RoleAttMgr: AttMgr.Str, RolePauser: Pauser.Str, RoleTokenCtl: TokenCtl.Str}[tx.Role]
+				holder := map[Role]string{RoleOwner: Owner.Str, RoleAttMgr: AttMgr.Str, RolePauser: pauser.Str, RoleTokenCtl: TokenCtl.Str}[tx.Role]
 				if tx.Role == RolePending {
 					w.Apply(AdminTxs[0].Make(Owner.Str))
 					holder = Outsider.Str
@@ -158,11 +165,11 @@ func c12Run(r *Run, start, preamble string) {
 			w.Load(unpaused)
 			m := c12Model{}
 			if start[0] == 'T' {
-				do(Act("pauseBurningAndMinting by A2", &cctptypes.MsgPauseBurningAndMinting{From: Pauser.Str}))
+				do(Act("pauseBurningAndMinting by "+pauser.Name, &cctptypes.MsgPauseBurningAndMinting{From: pauser.Str}))
 				m.Burn = true
 			}
 			if start[1] == 'T' {
-				do(Act("pauseSendingAndReceiving by A2", &cctptypes.MsgPauseSendingAndReceivingMessages{From: Pauser.Str}))
+				do(Act("pauseSendingAndReceiving by "+pauser.Name, &cctptypes.MsgPauseSendingAndReceivingMessages{From: pauser.Str}))
 				m.Send = true
 			}
 			root.Model, root.MKey = m, m.key()
@@ -183,7 +190,7 @@ func c12Run(r *Run, start, preamble string) {
 			m := pre.Model.(c12Model)
 			next, from := c12Apply(m, a)
 			exp := MustFail
-			if from == Pauser.Str {
+			if from == pauser.Str {
 				exp = MustSucceed
 			}
 			r.Distinct(fmt.Sprintf("%s|%s|%s|%s", start+preamble, m.key(), a.Desc, o.Class()))
@@ -233,7 +240,7 @@ func c12Run(r *Run, start, preamble string) {
 			}
 			// probes: administrative transactions stay available, and only pause actions move the flags
 			for _, tx := range AdminTxs {
-				holder := map[Role]string{RoleOwner: Owner.Str, RoleAttMgr: AttMgr.Str, RolePauser: Pauser.Str, RoleTokenCtl: TokenCtl.Str}[tx.Role]
+				holder := map[Role]string{RoleOwner: Owner.Str, RoleAttMgr: AttMgr.Str, RolePauser: pauser.Str, RoleTokenCtl: TokenCtl.Str}[tx.Role]
 				pathPre := n.Path
 				w.Load(n.Dump)
 				if tx.Role == RolePending {
